@@ -41,6 +41,7 @@ class Mutation:
     value_src: str = ""
     stmt_index: tuple = ()      # position for post-dominance checks
     exempt: str = ""            # reason when part of a restore pair
+    tentative: bool = False     # `x op= y` on a name without array evidence
 
     @property
     def where(self):
@@ -63,6 +64,7 @@ class FuncAnalysis:
         self.stored: dict[str, set] = {}      # cell -> origins stored by reference
         self.cellenv: dict[str, frozenset] = {}   # cell -> origins (flow-sensitive)
         self.calls_passing: list = []         # (callee, argpos/kw, origins, node)
+        self.arg_nodes: dict = {}
         for p in f.params + f.kwonly:
             if p != self.selfname:
                 self.env[p] = frozenset([f"param:{p}"])
@@ -279,6 +281,11 @@ class FuncAnalysis:
             o = self.env.get(t.id, frozenset())
             if o and self.arrayish(t.id):
                 self.mutate(t, st, "augassign", pos, value=st.value)
+            elif o and any(x.startswith("param:") for x in o):
+                # in place iff the argument is an ndarray: decided at the call
+                # sites from the inferred type of what is passed
+                self.mutate(t, st, "augassign", pos, value=st.value)
+                self.mutations[-1].tentative = True
         elif isinstance(t, ast.Subscript):
             self.mutate(t.value, st, "item-augassign", pos, index=t.slice,
                         value=st.value)
@@ -359,12 +366,14 @@ class FuncAnalysis:
                 if o:
                     self.calls_passing.append((target, pn, frozenset(o), n, pos,
                                                ast.unparse(a)))
+                    self.arg_nodes[(id(n), pn)] = a
             for k in n.keywords:
                 if k.arg in params:
                     o = self.origins(k.value)
                     if o:
                         self.calls_passing.append((target, k.arg, frozenset(o), n, pos,
                                                    ast.unparse(k.value)))
+                        self.arg_nodes[(id(n), k.arg)] = k.value
 
 
 class Purity:
@@ -378,6 +387,16 @@ class Purity:
             for n in c.methods:
                 self._method_owners.setdefault(n, []).append(c)
         self._in_progress = set()
+        self.inferer = None
+        try:
+            from .kernels import Inferer
+            from .cymodel import load_types
+
+            class _T:
+                types = load_types(prog.repo)
+            self.inferer = Inferer(prog, _T())
+        except Exception:      # inference is an optional refinement
+            self.inferer = None
 
     # -- call resolution
     def resolve_call(self, fa: FuncAnalysis, e: ast.Call):
@@ -473,6 +492,24 @@ class Purity:
                     out.add(o)
         return frozenset(out)
 
+    def is_array_arg(self, fa: FuncAnalysis, node, pn) -> bool:
+        """Is the value passed for parameter pn at this call inferred to be an
+        ndarray (known dtype)?"""
+        a = fa.arg_nodes.get((id(node), pn))
+        if a is None or self.inferer is None:
+            return False
+        env = self.inferer.env_at(fa.f, fa.cls, node)
+        t = self.inferer.infer(a, env, fa.f, fa.cls)
+        return t.dtype is not None
+
+    def real_mutation(self, fa, target, pn, node) -> bool:
+        m = self.mut_params.get(target, {}).get(pn)
+        if m is None:
+            return False
+        if not m.tentative:
+            return True
+        return self.is_array_arg(fa, node, pn)
+
     # -- summaries
     def compute(self):
         funcs = list(self.p.functions())
@@ -483,7 +520,7 @@ class Purity:
             mark_restore_pairs(fa)
         for f, fa in self.fa.items():
             d = {}
-            for m in fa.mutations:
+            for m in sorted(fa.mutations, key=lambda m: m.tentative):
                 if m.exempt:
                     continue
                 for o in m.origins:
@@ -503,7 +540,8 @@ class Purity:
                                     x[6:] not in self.mut_params[f]:
                                 self.mut_params[f][x[6:]] = Mutation(
                                     f, node, frozenset([x]), f"via {target.qualname}"
-                                    f"({pn})", src, stmt_index=pos)
+                                    f"({pn})", src, stmt_index=pos,
+                                    tentative=self.mut_params[target][pn].tentative)
                                 changed = True
 
 
@@ -611,7 +649,7 @@ def check(run: Run, prog: Program):
     for f, fa in sorted(an.fa.items(), key=lambda kv: kv[0].qualname):
         for m in fa.mutations:
             shared = sorted(o for o in m.origins if o.startswith(("cached:", "shared:")))
-            if not shared:
+            if not shared or m.tentative:
                 continue
             n_cached_bind += 1
             inst = f"{f.qualname}:{m.target_src}:{m.how}:{m.node.lineno}"
@@ -635,7 +673,7 @@ def check(run: Run, prog: Program):
             mp = an.mut_params.get(target, {})
             inst = f"{f.qualname}->{target.qualname}({pn}):{node.lineno}"
             n_cached_bind += 1
-            if pn in mp:
+            if pn in mp and an.real_mutation(fa, target, pn, node):
                 run.oblige("P1", inst, False, sample={
                     "where": f"{f.module.relpath}:{node.lineno}", "origin": shared})
                 for x in shared:
@@ -656,6 +694,8 @@ def check(run: Run, prog: Program):
         doc = f.docstring
         documented = bool(DOC_INPLACE.search(doc))
         for pn, m in sorted(d.items()):
+            if m.tentative:
+                continue
             inst = f"{f.qualname}({pn})"
             run.oblige("P2", inst, documented, sample={
                 "where": m.where, "how": m.how, "documented": documented})
@@ -724,7 +764,7 @@ def p1_restricted(run: Run, rule: str, prog: Program, origin_pred, what: str,
     for f, fa in sorted(an.fa.items(), key=lambda kv: kv[0].qualname):
         for m in fa.mutations:
             hit = sorted(o for o in m.origins if origin_pred(o))
-            if not hit:
+            if not hit or m.tentative:
                 continue
             n += 1
             inst = f"{f.qualname}:{m.target_src}:{m.how}:{m.node.lineno}"
@@ -742,7 +782,7 @@ def p1_restricted(run: Run, rule: str, prog: Program, origin_pred, what: str,
                 continue
             n += 1
             mp = an.mut_params.get(target, {})
-            bad = pn in mp
+            bad = pn in mp and an.real_mutation(fa, target, pn, node)
             run.oblige(rule, f"{f.qualname}->{target.qualname}({pn}):{node.lineno}",
                        not bad, sample={"where": f"{f.module.relpath}:{node.lineno}",
                                         "origin": hit})
